@@ -1496,7 +1496,7 @@ def pow(x, e):
         e = e.const_value()
     if x.a.dtype != object and isinstance(e, builtins.int) and e >= 0:
         return T(x.a ** e, x.dtype, True)
-    fe = Fraction(e) if not isinstance(e, builtins.float) else E.frac_of_float(e)
+    fe = Fraction(e) if not isinstance(e, builtins.float) else E.exponent_of_float(e)
     a = x.a if x.a.dtype == object else _obj(x.a)
     r = np.frompyfunc(lambda v: Sym(E.powr(v.n, fe)), 1, 1)(a)
     if not isinstance(r, np.ndarray):
